@@ -70,3 +70,10 @@ func SwapElems(slice interface{}, i, j int) {}
 // Threads (C07): Go starts f on a second thread; Join waits for all of them.
 func Go(f func()) {}
 func Join()       {}
+
+// YieldUntil is a scheduling point at which the native flavour waits (bounded)
+// for another client to have called SetFlag: it makes one particular
+// interleaving reproducible natively. Symbolically every interleaving at this
+// point is explored anyway.
+func YieldUntil(flag *int32) { Yield() }
+func SetFlag(flag *int32)    { *flag = 1 }
